@@ -22,6 +22,10 @@ for d in sorted(glob.glob("seeded/*/")):
     if idx % sn != si:
         continue
     meta = json.load(open(d + "meta.json"))
+    if meta.get("not_caught"):
+        rows.append((sid, meta["property_broken"], [], {}, True, meta.get("not_caught_by", []), meta.get("note", "")))
+        print(sid, "SKIPPED (recorded as not caught)", flush=True)
+        continue
     if not meta.get("caught_by_quick_checks") and meta.get("caught_by_thorough_checks"):
         rows.append((sid, meta["property_broken"], [], {}, True, meta.get("not_caught_by", []), "thorough tier only (" + ", ".join(meta["caught_by_thorough_checks"]) + "); not re-run by the quick regression. " + meta.get("note", "")))
         print(sid, "SKIPPED (thorough only)", flush=True)
